@@ -7,7 +7,7 @@ package main
 //      CheckTx before it is delivered (a node that saw the transaction in its mempool and served a gas estimate)
 //   C  separate OS process, GOMAXPROCS=1, started >= 1.1 s later, MemDB, with another node-local configuration:
 //      genesis invariants not asserted (--x-crisis-skip-assert-invariants), every invariant asserted in every block
-//      (--inv-check-period 1)
+//      (--inv-check-period 1); its process runs in another local time zone and locale
 // B's recording carries A's and C's app hash / tx results next to its own so that the verdict is
 // computed by TLC (Trace.tla monitors ReplicasAgree / RestartResumesCommitted).
 
@@ -169,7 +169,7 @@ func cmdTwin(fs *flag.FlagSet, in, out string, seed int64) error {
 	}
 	self, _ := os.Executable()
 	cmd := exec.Command(self, "replica", "-in", tmpIn, "-out", tmpOut)
-	cmd.Env = append(os.Environ(), "GOMAXPROCS=1")
+	cmd.Env = append(os.Environ(), "GOMAXPROCS=1", "TZ=Asia/Kolkata", "LANG=tr_TR.UTF-8") // another local time zone and locale
 	cmd.Stderr = os.Stderr
 	if err := cmd.Run(); err != nil {
 		return fmt.Errorf("replica C: %w", err)
